@@ -273,6 +273,7 @@ func observe(c *PrivCase, enc string) (o observed, fail string) {
 		}
 		b.Barrier(2 * time.Second)
 	}
+	tor.Announce()                      // a manual announce must not reach the DHT either
 	time.Sleep(2500 * time.Millisecond) // DHT requests are forwarded once per second; PEX dials are immediate
 	st := tor.Stats()
 	o.statsPrivate = st.Private
